@@ -1,6 +1,6 @@
 /-
-  UNRESTRICTED form of Lemmas/LzmaResumeOneShot.lean / LzmaResumeOneShotW.lean: the resumable LZMA decoder model
-  (`Model/LzmaResume.lean`) given the COMPLETE input in its first call is the one-shot model (`Model/Lzma.lean`), for any output
+  UNRESTRICTED form of Lemmas/LzmaResumeOneShot.lean / LzmaResumeOneShotW.lean: the resumable LZMA1/LZMA2 decoder model
+  (`Model/LzmaResume.lean`) given the COMPLETE input in its first call is the one-shot model (`Model/Lzma.lean`, `Lzma2.lean`), for any output
   allowance (dictionary wraps included, e.g. the default `UNLIMITED`) and any `uncomp` / `allowEopm`:
   `callR_eq_oneshot_lzma1`, `lzmaDecode_eq_callR` (hypothesis `props.valid = true`, needed for the alignment argument at the wrap).
 
@@ -9,11 +9,19 @@
   now matched on the resumable side: that call is a no-op (`CodeInv.idle`). For LZMA1 (`idle_lzma1`): the zero-room re-call before
   the wrap is idle (`l1IdleSQ`), and `idle1wq_aux` (Lemmas/LzmaResumeIdleWrap1.lean) carries this across the wrap; the invariant
   `I1` (range decoder / probabilities `RcQ`, `AlignOk`, `FullOkS`, and `J`: no output step pending while `rc_read_init` is
-  unfinished) holds between calls. The generic part (`CodeInv`, `dB_simF`, `top_simF`) is ready for an LZMA2 instance.
+  unfinished) holds between calls.
+
+  LZMA2 (`callR_eq_oneshot_lzma2`, `lzma2Decode_eq_callR`: NO hypothesis at all): instance `codeInv_lzma2` with
+  `I2 = P2s ∧ L2AP ∧ FullOkS ∧ J`. `lzma2Loop_simF` re-runs the lock-step induction of `lzma2Loop_sim` carrying `G2` (the invariant
+  at every iteration, taken from the resumable side's step lemmas `l2StepR_ok`, `l2StepR_ap` of Lemmas/LzmaResumeL2.lean /
+  LzmaResumeWrap2.lean through `Fresh`) and proves `IdleC`: where the one-shot `lzma_decode` got stuck in SEQ_LZMA, the resumable
+  `lzma2_decode` called again after the wrap is a no-op (`idle_lzma1N` — the non-Q form of `idle_lzma1`, `allow_eopm = false` —
+  then `lzmaCallR_setL2` and `idle_lzma2_step`: `in_used = 0`, LZMA_OK).
   Core Lean only.
 -/
 import XzVerif.Lemmas.LzmaResumeOneShotW
 import XzVerif.Lemmas.LzmaResumeIdleWrap1
+import XzVerif.Lemmas.LzmaResumeWrap2
 
 namespace XzVerif.LzmaR.OneShot
 open XzVerif.RangeDec XzVerif.LzDict XzVerif.Lzma XzVerif.Lzma2
@@ -26,7 +34,8 @@ open XzVerif.RangeDec XzVerif.LzDict XzVerif.Lzma XzVerif.Lzma2
 structure CodeInv (I : St → Prop) (codeR : RSt → Ret × RSt) (code : St → Ret × St) : Prop where
   prep : ∀ s N, I s → I (dbPrep N s)
   reset : ∀ s, I s → I { s with dp := s.dp.reset }
-  keep : ∀ r s, Fresh r s → I s → s.inPos ≤ s.inp.size → s.dp.pos ≤ s.dp.limit → Fresh (codeR r).2 (code s).2 → I (code s).2
+  keep : ∀ r s, Fresh r s → I s → s.inPos ≤ s.inp.size → s.dp.pos ≤ s.dp.limit → s.dp.needReset = false →
+    Fresh (codeR r).2 (code s).2 → I (code s).2
   idle : ∀ r s, Fresh r s → I s → s.inPos ≤ s.inp.size → s.dp.pos ≤ s.dp.limit → s.dp.limit = s.dp.size → 576 ≤ s.dp.size →
     s.dp.needReset = false → (code s).1 = .ok → (code s).2.pending = .stuck → (code s).2.dp.pos = s.dp.size → ∀ N,
     codeR ((codeR r).2.map fun t => dbPrep N t) = (.ok, (codeR r).2.map fun t => dbPrep N t)
@@ -77,7 +86,7 @@ theorem dB_simF {I : St → Prop} {codeR : RSt → Ret × RSt} {code : St → Re
     have hso := hs r1 s1 hfr1 hl1
     have hc := hcr s1 hin1 hl1
     have hd := hdead s1 hfr1.2.2 hin1 hl1
-    have hic := hI.keep r1 s1 hfr1 hi1 hin1 hl1
+    have hic := hI.keep r1 s1 hfr1 hi1 hin1 hl1 a8
     have hid := hI.idle r1 s1 hfr1 hi1 hin1 hl1
     generalize code s1 = y at hso hc hd hnp hic hid ⊢
     generalize codeR r1 = x at hso hic hid
@@ -367,7 +376,7 @@ theorem codeInv_lzma1 : CodeInv I1 lzmaCallR lzmaCall where
   reset := fun s hi => by
     obtain ⟨hJ, hQ, hA, _⟩ := hi
     exact ⟨hJ, rcq_congr s _ hQ rfl rfl rfl, ⟨hA.1, hA.2.1, hA.2.2⟩, fun _ => Nat.zero_add _⟩
-  keep := fun r s hfr hi hin hl hfr2 => by
+  keep := fun r s hfr hi hin hl _ hfr2 => by
     rw [← hfr2.1]
     obtain ⟨h1, h2, _⟩ := hfr
     subst h1
@@ -454,6 +463,425 @@ theorem lzmaDecode_eq_callR (props : Props) (dictSize : Nat) (uncomp : Option Na
   show _ = DecResult.mk _ _ _
   rw [show Coder.initLzma1 props dictSize uncomp allowEopm preset (toBuf input)
         = ⟨.lzma1, St.initLzma1 props dictSize uncomp (allowEopm || uncomp.isNone) preset (toBuf input)⟩ from rfl, ey]
+  rfl
+
+end XzVerif.LzmaR
+
+namespace XzVerif.LzmaR.OneShot
+open XzVerif.RangeDec XzVerif.LzDict XzVerif.Lzma XzVerif.Lzma2
+
+/-! ### LZMA2 -/
+
+/-- `idle_lzma1` for a coder that never accepts an end marker (LZMA2 chunks): no range-decoder invariant needed -/
+theorem idle_lzma1N (r : RSt) (s : St) (hfr : Fresh r s) (hJ : J s) (hae : s.allowEopm = false) (hA : AlignOk s) (hF : FullOkS s)
+    (hin : s.inPos ≤ s.inp.size) (hl : s.dp.pos ≤ s.dp.limit)
+    (hlimsz : s.dp.limit = s.dp.size) (hsz : 576 ≤ s.dp.size)
+    (hok : (lzmaCall s).1 = .ok) (hst : (lzmaCall s).2.pending = .stuck) (hpos : (lzmaCall s).2.dp.pos = s.dp.size) (N : Nat) :
+    lzmaCallR ((lzmaCallR r).2.map fun t => dbPrep N t) = (.ok, (lzmaCallR r).2.map fun t => dbPrep N t) := by
+  have hsim := lzmaCall_sim r s hfr
+  have hpn := lzmaCallR_pending_none r s hfr hJ hst
+  obtain ⟨rs, k, ov⟩ := r
+  obtain ⟨h1, h2, _⟩ := hfr
+  simp only [] at h1 h2
+  subst h1; subst h2
+  have hview : (RSt.mk rs none ov).view rs.inp rs.dp.size = RSt.mk rs none ov := by
+    show (⟨{ rs with inp := rs.inp, dp := { rs.dp with limit := rs.dp.size } }, none, ov⟩ : RSt) = ⟨rs, none, ov⟩
+    rw [← hlimsz]
+  have hpre : Pre1 (RSt.mk rs none ov) rs.inp rs.dp.size :=
+    ⟨hin, by rw [← hlimsz]; exact hl, ⟨hin, hin, fun _ _ _ _ => rfl⟩, SymPre.of_none _ rfl, Or.inl hae⟩
+  have kp := Wrap1.kp_lzmaCallR (RSt.mk rs none ov)
+  have hsp := l1Spec (RSt.mk rs none ov) (SymPre.of_none _ rfl) hin hl
+  have hokR : (lzmaCallR (RSt.mk rs none ov)).1 = .ok := hsim.1.trans hok
+  have hS := l1IdleS (RSt.mk rs none ov) rs.inp rs.dp.size rs.dp.size hpre (Nat.le_refl _)
+    (by rw [hview]; exact hokR) (by rw [hview]; exact hpn)
+  rw [hview] at hS
+  have hposR : (lzmaCallR (RSt.mk rs none ov)).2.s.dp.pos = rs.dp.size := by
+    have e : (lzmaCallR (RSt.mk rs none ov)).2.s = { (lzmaCall rs).2 with pending := (lzmaCallR (RSt.mk rs none ov)).2.s.pending } :=
+      hsim.2.1
+    rw [e]; exact hpos
+  generalize lzmaCallR (RSt.mk rs none ov) = X at *
+  obtain ⟨hsym, hwr, _, _, hae2, _, hhw, hfull⟩ := hsp
+  have hA2 : AlignOk X.2.s := by
+    unfold AlignOk
+    rw [kp.size, kp.lc, kp.lp, kp.pb]
+    exact hA
+  have hF2 : FullOkS X.2.s := by
+    intro hw
+    have hw0 : rs.dp.hasWrapped = false := by
+      have e : X.2.s.dp.hasWrapped = rs.dp.hasWrapped := hhw
+      rw [← e]; exact hw
+    exact hfull hw0 (hF hw0)
+  have hae3 : X.2.s.allowEopm = false := by
+    have e : X.2.s.allowEopm = rs.allowEopm := hae2
+    rw [e]; exact hae
+  have hXsz : X.2.s.dp.size = rs.dp.size := hwr.size
+  have hXpos : X.2.s.dp.pos = X.2.s.dp.size := by rw [hXsz]; exact hposR
+  have hXinp : X.2.s.inp = rs.inp := hwr.inp
+  have hXin : X.2.s.inPos ≤ rs.inp.size := by
+    have := hwr.pos_le hin
+    rw [hXinp] at this; exact this
+  have hpreX : Pre1 X.2 rs.inp X.2.s.dp.size :=
+    ⟨hXin, by rw [hXpos]; exact Nat.le_refl _, by rw [hXinp]; exact ⟨hXin, hXin, fun _ _ _ _ => rfl⟩, hsym, Or.inl hae3⟩
+  have hW : Same (lzmaCallR (X.2.view rs.inp X.2.s.dp.size)) (.ok, X.2) := by
+    rw [hXsz]
+    exact hS.trans ⟨hokR, rfl⟩
+  have hf2 := prepDp_facts X.2.s.dp (N - X.2.s.produced) (by omega) (by omega)
+  have hL2 : LZ_DICT_REPEAT_MAX ≤ ((X.2.s.dp.wrap).setLimit (N - X.2.s.produced)).limit := by
+    have h1 := hf2.2.2.2.2 hXpos
+    have h2 := hf2.2.2.1
+    omega
+  have hR := idle1w_aux X.2 rs.inp ((X.2.s.dp.wrap).setLimit (N - X.2.s.produced)).limit hpreX hA2 hF2 hXpos hL2 hpn hW
+  have hWd : (X.2.map fun t => dbPrep N t) = X.2.wrap.view rs.inp ((X.2.s.dp.wrap).setLimit (N - X.2.s.produced)).limit := by
+    rw [← hXinp]
+    rfl
+  rw [hWd]
+  generalize hWs : X.2.wrap.view rs.inp ((X.2.s.dp.wrap).setLimit (N - X.2.s.produced)).limit = Wst at hR ⊢
+  have hsymW : SymPre Wst := by
+    rw [← hWs]
+    exact SymPre.view (Wrap1.symPre_wrap X.2 hsym hA2 hXpos) _ _
+      (by show Agree X.2.s.inPos X.2.s.inp rs.inp; rw [hXinp]; exact ⟨hXin, hXin, fun _ _ _ _ => rfl⟩)
+  have hinW : Wst.s.inPos ≤ Wst.s.inp.size := by rw [← hWs]; exact hXin
+  have hlW : Wst.s.dp.pos ≤ Wst.s.dp.limit := by
+    rw [← hWs]
+    show (X.2.s.dp.wrap).pos ≤ ((X.2.s.dp.wrap).setLimit (N - X.2.s.produced)).limit
+    exact hf2.2.2.1
+  have hwrW := (l1Spec' Wst hsymW hinW hlW).1
+  have hnW : (lzmaCallR Wst).2.norm = Wst.norm := by
+    rw [hR.2, ← hWs]
+    rfl
+  have := eq_of_norm' hnW hwrW.inp hwrW.limit
+  exact Prod.ext hR.1 this
+
+/-- a header / copy step of `lzma2_decode` keeps `J` -/
+theorem l2Byte_J (q : L2Seq) (s : St) (byte : Nat) (hJ : J s) : l2StepAll J (l2Byte q s byte) := by
+  cases q with
+  | control =>
+    simp only [l2Byte, l2Control]
+    split
+    · exact hJ
+    · split
+      · exact hJ
+      · generalize controlStep byte s.l2.needProperties s.l2.needDictionaryReset = a
+        have key : J (controlApply { s with inPos := s.inPos + 1 } a) := by
+          unfold controlApply
+          simp only []
+          split
+          · split
+            · intro _; rfl
+            · exact hJ
+          · exact hJ
+        split
+        · exact key
+        · exact key
+  | uncompressed1 => exact hJ
+  | uncompressed2 => exact hJ
+  | compressed0 => exact hJ
+  | compressed1 => exact hJ
+  | properties =>
+    simp only [l2Byte]
+    cases propsDecode byte with
+    | none => exact hJ
+    | some p => intro _; rfl
+  | lzma => exact hJ
+  | copy => exact hJ
+
+theorem l2Step_J (s : St) (hq : s.l2.seq ≠ .lzma) (hJ : J s) : l2StepAll J (l2Step s) := by
+  unfold l2Step
+  split
+  · exact hJ
+  · cases h : s.l2.seq with
+    | lzma => exact absurd h hq
+    | copy =>
+      show l2StepAll J (l2Copy s)
+      unfold l2Copy
+      simp only []
+      split
+      · exact hJ
+      · exact hJ
+    | _ => exact l2Byte_J _ s _ hJ
+
+theorem l2StepR_lift' (r : RSt) (hq : r.s.l2.seq ≠ .lzma) : l2StepR r = liftStep r (l2Step r.s) := by
+  unfold l2StepR l2Step
+  by_cases hg : (!(r.s.inPos < r.s.inp.size || r.s.l2.seq == .lzma)) = true
+  · rw [if_pos hg, if_pos hg]; rfl
+  · rw [if_neg hg, if_neg hg]
+    cases h : r.s.l2.seq with
+    | lzma => exact absurd h hq
+    | _ => rfl
+
+theorem l1Lclppb : L1Lclppb := fun r =>
+  ⟨(Wrap1.kp_lzmaCallR r).lc, (Wrap1.kp_lzmaCallR r).lp, (Wrap1.kp_lzmaCallR r).pb⟩
+
+/-- the state between two iterations of `lzma2_decode` (both models: `Fresh`) -/
+structure G2 (s : St) : Prop where
+  p2 : P2s s
+  ap : L2AP s
+  fo : FullOkS s
+  j : J s
+  inPos : s.inPos ≤ s.inp.size
+  pos : s.dp.pos ≤ s.dp.limit
+  nr : s.dp.needReset = false
+
+theorem G2.good {r : RSt} {s : St} (h : G2 s) (hfr : Fresh r s) : L2Good r := by
+  obtain ⟨h1, h2, _⟩ := hfr
+  subst h1
+  exact ⟨⟨h.p2, symInv_none r h2⟩, h.inPos, h.pos, h.nr⟩
+
+/-- a step outside SEQ_LZMA that goes on -/
+theorem g2_next (r : RSt) (s s1 : St) (hfr : Fresh r s) (hg : G2 s) (hq : s.l2.seq ≠ .lzma) (hst : l2Step s = .next s1) :
+    G2 s1 ∧ s1.dp.limit = s.dp.limit ∧ s1.dp.size = s.dp.size := by
+  have hgood := hg.good hfr
+  obtain ⟨h1, h2, _⟩ := hfr
+  subst h1
+  have hok := l2StepR_ok l1Spec lzmaCallR_end_none symPreL2 r hgood
+  have hap := l2StepR_ap l1Spec l1Lclppb r hgood hg.ap
+  have hj := l2Step_J r.s hq hg.j
+  rw [l2StepR_lift' r hq, hst] at hok hap
+  rw [hst] at hj
+  have hn : L2NextOk r.s s1 := hok.1
+  have hap' : L2AP s1 := hap
+  have hj' : J s1 := hj
+  refine ⟨⟨hn.p2, hap', ?_, hj', hn.fw.cr.pos_le hg.inPos, hn.fw.cr.in_limit hg.pos, hn.nr.trans hg.nr⟩, hn.fw.cr.limit, hn.fw.cr.size⟩
+  intro hw
+  have hw0 : r.s.dp.hasWrapped = false := by rw [← hn.fw.wrapped]; exact hw
+  exact hn.fw.full hw0 (hg.fo hw0)
+
+theorem G2.setL2 {t : St} (h : G2 t) (g : L2 → L2) (hp : (g t.l2).props = t.l2.props) (hc : (g t.l2).seq ≠ .copy) :
+    G2 (setL2 t g) := by
+  refine ⟨⟨h.p2.1, fun hh => absurd hh hc⟩, ⟨h.ap.1, ?_⟩, h.fo, h.j, h.inPos, h.pos, h.nr⟩
+  show (g t.l2).props.lc + (g t.l2).props.lp ≤ 4 ∧ (g t.l2).props.pb ≤ 4
+  rw [hp]; exact h.ap.2
+
+/-- the resumable state after `lzma_decode` from a `G2` state in SEQ_LZMA -/
+theorem g2_lzmaCallR (r : RSt) (h0 : r.sym0 = none) (hg : G2 r.s) (hq : r.s.l2.seq = .lzma) :
+    G2 (lzmaCallR r).2.s ∧ (lzmaCallR r).2.s.l2 = r.s.l2 ∧ (lzmaCallR r).2.s.dp.limit = r.s.dp.limit
+    ∧ (lzmaCallR r).2.s.dp.size = r.s.dp.size := by
+  have kp := Wrap1.kp_lzmaCallR r
+  have sp := l1Spec' r (SymPre.of_none r h0) hg.inPos hg.pos
+  obtain ⟨hwr, _, _, hae, _, hhw, hfull⟩ := sp
+  refine ⟨⟨⟨hae.trans hg.p2.1, fun hh => ?_⟩, ⟨?_, ?_⟩, ?_, j_lzmaCallR r hg.j, hwr.pos_le hg.inPos, hwr.in_limit hg.pos,
+    hwr.needReset.trans hg.nr⟩, hwr.l2, hwr.limit, hwr.size⟩
+  · rw [hwr.l2, hq] at hh; cases hh
+  · unfold AlignOk
+    rw [kp.size, kp.lc, kp.lp, kp.pb]
+    exact hg.ap.1
+  · unfold PropsOkS
+    rw [hwr.l2]; exact hg.ap.2
+  · intro hw
+    have hw0 : r.s.dp.hasWrapped = false := by rw [← hhw]; exact hw
+    exact hfull hw0 (hg.fo hw0)
+
+theorem map_setL2_sub_self (W : RSt) :
+    (W.map fun s => setL2 s fun l => { l with compressedSize := l.compressedSize - (W.s.inPos - W.s.inPos) }) = W := by
+  show (⟨setL2 W.s fun l => { l with compressedSize := l.compressedSize - (W.s.inPos - W.s.inPos) }, W.sym0, W.overrun⟩ : RSt) = W
+  rw [setL2_sub_self]
+
+/-- SEQ_LZMA with an idle LZMA decoder: `lzma2_decode` returns LZMA_OK and changes nothing -/
+theorem idle_lzma2_step (X : RSt) (g : L2 → L2) (N : Nat) (hseq : (g X.s.l2).seq = .lzma)
+    (h : lzmaCallR (X.map fun t => dbPrep N t) = (.ok, X.map fun t => dbPrep N t)) :
+    lzma2CallR ((X.map fun t => setL2 t g).map fun t => dbPrep N t)
+      = (.ok, (X.map fun t => setL2 t g).map fun t => dbPrep N t) := by
+  have hW : ((X.map fun t => setL2 t g).map fun t => dbPrep N t) = ((X.map fun t => dbPrep N t).map fun t => setL2 t g) := rfl
+  generalize hWd : ((X.map fun t => setL2 t g).map fun t => dbPrep N t) = W at hW ⊢
+  have hseqW : W.s.l2.seq = .lzma := by rw [← hWd]; exact hseq
+  have hcall : lzmaCallR W = (.ok, W) := by
+    rw [hW, lzmaCallR_setL2, h]
+  have e : lzma2CallR W = lzma2LoopR (2 * (W.s.inp.size - W.s.inPos) + 3 + 1) W := rfl
+  rw [e, lzma2LoopR_succS, l2StepS_lzma W hseqW, hcall]
+  unfold l2LzmaS
+  simp only []
+  rw [if_neg (by rw [Nat.sub_self]; exact Nat.not_lt_zero _), if_pos (by decide)]
+  show (Ret.ok, _) = (Ret.ok, W)
+  rw [map_setL2_sub_self]
+
+/-- what the stuck result of a `code` call on the one-shot side means for the resumable side (`CodeInv.idle` for LZMA2) -/
+def IdleC (s : St) (x : Ret × RSt) (y : Ret × St) : Prop :=
+  y.2.pending = .stuck → y.1 = .ok → s.dp.limit = s.dp.size → 576 ≤ s.dp.size → y.2.dp.pos = s.dp.size →
+    ∀ N, lzma2CallR (x.2.map fun t => dbPrep N t) = (.ok, x.2.map fun t => dbPrep N t)
+
+def JC (y : Ret × St) : Prop := y.2.pending ≠ .stuck → J y.2
+
+theorem l2Lzma_simF (r : RSt) (s : St) (hfr : Fresh r s) (hg : G2 s) (hq : s.l2.seq = .lzma) :
+    match l2LzmaS s.inPos (lzmaCallR r), l2Lzma s.inPos (lzmaCall s) with
+    | StepS.done X', Step.done Y' => IdleC s X' Y' ∧ JC Y'
+    | StepS.next _, Step.next s1 => G2 s1 ∧ s1.dp.limit = s.dp.limit ∧ s1.dp.size = s.dp.size
+    | _, _ => True := by
+  have hc := lzmaCall_sim r s hfr
+  have hidl : (lzmaCall s).2.pending = .stuck → (lzmaCall s).1 = .ok → s.dp.limit = s.dp.size → 576 ≤ s.dp.size →
+      (lzmaCall s).2.dp.pos = s.dp.size → ∀ N,
+      lzmaCallR ((lzmaCallR r).2.map fun t => dbPrep N t) = (.ok, (lzmaCallR r).2.map fun t => dbPrep N t) :=
+    fun hst hok hlim hsz hpos N =>
+      idle_lzma1N r s hfr hg.j hg.p2.1 hg.ap.1 hg.fo hg.inPos hg.pos hlim hsz hok hst hpos N
+  have hgx : G2 (lzmaCallR r).2.s ∧ (lzmaCallR r).2.s.l2 = s.l2 ∧ (lzmaCallR r).2.s.dp.limit = s.dp.limit
+      ∧ (lzmaCallR r).2.s.dp.size = s.dp.size := by
+    obtain ⟨h1, h2, _⟩ := hfr
+    subst h1
+    exact g2_lzmaCallR r h2 hg hq
+  generalize lzmaCallR r = x at hc hidl hgx
+  generalize lzmaCall s = y at hc hidl
+  obtain ⟨ret, X⟩ := x
+  obtain ⟨ret', Y⟩ := y
+  obtain ⟨hret, heq, hfr2, hend⟩ := hc
+  simp only [] at hret heq hfr2 hend hidl hgx
+  subst hret
+  obtain ⟨xs, k, ov⟩ := X
+  have heq' : xs = { Y with pending := xs.pending } := heq
+  obtain ⟨hgX, hl2, hlim, hsize⟩ := hgx
+  simp only [] at hgX hl2 hlim hsize hfr2 hidl
+  have hseqX : xs.l2.seq = .lzma := by rw [hl2]; exact hq
+  have hJY : Y.pending ≠ .stuck → J Y := fun hp => by
+    have e : xs = Y := (hfr2 hp).1
+    rw [← e]; exact hgX.j
+  generalize hp : xs.pending = p at heq'
+  subst heq'
+  unfold l2LzmaS l2Lzma
+  simp only []
+  by_cases c1 : Y.inPos - s.inPos > Y.l2.compressedSize
+  · rw [if_pos c1, if_pos c1]
+    exact ⟨fun _ h => absurd (show Ret.dataError = Ret.ok from h) (by decide), hJY⟩
+  · rw [if_neg c1, if_neg c1]
+    by_cases c2 : (ret != .streamEnd) = true
+    · rw [if_pos c2, if_pos c2]
+      refine ⟨?_, hJY⟩
+      intro hst hok hl hs hpos N
+      exact idle_lzma2_step _ _ N hseqX (hidl hst hok hl hs hpos N)
+    · rw [if_neg c2, if_neg c2]
+      by_cases c3 : (Y.l2.compressedSize - (Y.inPos - s.inPos) != 0) = true
+      · rw [if_pos (by exact c3), if_pos (by exact c3)]
+        exact ⟨fun _ h => absurd (show Ret.dataError = Ret.ok from h) (by decide), hJY⟩
+      · rw [if_neg (by exact c3), if_neg (by exact c3)]
+        have hre : ret = .streamEnd := by simpa using c2
+        have hns : Y.pending ≠ .stuck := hend hre
+        have hgY : G2 Y := by
+          have e := (hfr2 hns).1
+          rw [e] at hgX; exact hgX
+        have hsY : Y.l2.seq = .lzma := hseqX
+        refine ⟨(hgY.setL2 _ rfl (by show Y.l2.seq ≠ .copy; rw [hsY]; decide)).setL2 _ rfl (by show L2Seq.control ≠ L2Seq.copy; decide), hlim, hsize⟩
+
+theorem IdleC.mono {s s1 : St} {x : Ret × RSt} {y : Ret × St} (h : IdleC s1 x y) (hl : s1.dp.limit = s.dp.limit)
+    (hs : s1.dp.size = s.dp.size) : IdleC s x y := by
+  intro a b c d e
+  exact h a b (by rw [hl, hs]; exact c) (by rw [hs]; exact d) (by rw [hs]; exact e)
+
+theorem lzma2Loop_simF : ∀ (fuel : Nat) (r : RSt) (s : St), Fresh r s → G2 s →
+    IdleC s (lzma2LoopR fuel r) (lzma2Loop fuel s) ∧ JC (lzma2Loop fuel s)
+  | 0, r, s, _, hg => ⟨fun _ h => absurd (show Ret.progError = Ret.ok from h) (by decide), fun _ => hg.j⟩
+  | f + 1, r, s, h, hg => by
+    rw [lzma2LoopR_succS, lzma2Loop_succ]
+    by_cases hq : s.l2.seq = .lzma
+    · have hqr : r.s.l2.seq = .lzma := by rw [h.1]; exact hq
+      rw [l2StepS_lzma r hqr, l2Step_lzma s hq]
+      have hc := lzmaCall_sim r s h
+      have hw := (lzmaCall_spec s hg.pos).1
+      have hi : r.s.inPos = s.inPos := by rw [h.1]
+      rw [hi]
+      have ha : After s (lzmaCallR r).2 (lzmaCall s).2 := ⟨hc.2.1, hc.2.2.1, hw.needReset⟩
+      have hm := l2Lzma_sim s s.inPos (lzmaCallR r) (lzmaCall s) hc.1 ha hc.2.2.2
+      have hF := l2Lzma_simF r s h hg hq
+      generalize l2LzmaS s.inPos (lzmaCallR r) = SX at hm hF ⊢
+      generalize l2Lzma s.inPos (lzmaCall s) = SY at hm hF ⊢
+      cases SX <;> cases SY
+      · exact hF
+      · exact hm.elim
+      · exact hm.elim
+      · obtain ⟨hf, _⟩ := hm
+        obtain ⟨hg1, hl1, hs1⟩ := hF
+        have ih := lzma2Loop_simF f _ _ hf hg1
+        exact ⟨ih.1.mono hl1 hs1, ih.2⟩
+    · have hqr : r.s.l2.seq ≠ .lzma := by rw [h.1]; exact hq
+      rw [l2StepS_lift r hqr, h.1]
+      have hk := l2Step_keep s hq
+      have hj := l2Step_J s hq hg.j
+      cases hst : l2Step s with
+      | done x =>
+        rw [hst] at hk hj
+        exact ⟨fun hs => absurd hs (hk h.2.2), fun _ => hj⟩
+      | next s1 =>
+        obtain ⟨hg1, hl1, hs1⟩ := g2_next r s s1 h hg hq hst
+        rw [hst] at hk
+        have ih := lzma2Loop_simF f { r with s := s1 } s1 ⟨rfl, h.2.1, hk.1 h.2.2⟩ hg1
+        exact ⟨ih.1.mono hl1 hs1, ih.2⟩
+
+theorem lzma2Call_simF (r : RSt) (s : St) (h : Fresh r s) (hg : G2 s) :
+    IdleC s (lzma2CallR r) (lzma2Call s) ∧ JC (lzma2Call s) := by
+  unfold lzma2CallR lzma2Call
+  rw [h.1]
+  exact lzma2Loop_simF _ r s h hg
+
+def I2 (s : St) : Prop := P2s s ∧ L2AP s ∧ FullOkS s ∧ J s
+
+theorem codeInv_lzma2 : CodeInv I2 lzma2CallR lzma2Call where
+  prep := fun s N hi => by
+    obtain ⟨hP, hAP, hF, hJ⟩ := hi
+    have hw := wrapLimit_facts s.dp (N - s.produced)
+    refine ⟨⟨hP.1, hP.2⟩, ⟨⟨?_, hAP.1.2.1, hAP.1.2.2⟩, hAP.2⟩, ?_, hJ⟩
+    · show ((s.dp.wrap).setLimit (N - s.produced)).size % 16 = 0
+      rw [hw.1]; exact hAP.1.1
+    · intro h
+      obtain ⟨h0, h1, h2⟩ := hw.2 h
+      show ((s.dp.wrap).setLimit (N - s.produced)).full + LZ_DICT_INIT_POS = ((s.dp.wrap).setLimit (N - s.produced)).pos
+      rw [h1, h2]; exact hF h0
+  reset := fun s hi => by
+    obtain ⟨hP, hAP, _, hJ⟩ := hi
+    exact ⟨⟨hP.1, hP.2⟩, ⟨⟨hAP.1.1, hAP.1.2.1, hAP.1.2.2⟩, hAP.2⟩, fun _ => Nat.zero_add _, hJ⟩
+  keep := fun r s hfr hi hin hl hnr hfr2 => by
+    have hg : G2 s := ⟨hi.1, hi.2.1, hi.2.2.1, hi.2.2.2, hin, hl, hnr⟩
+    have hgood := hg.good hfr
+    have hJ := (lzma2Call_simF r s hfr hg).2 hfr2.2.2
+    obtain ⟨h1, _, _⟩ := hfr
+    subst h1
+    have sp := lzma2CallR_spec l1Spec lzmaCallR_end_none symPreL2 r hgood.p2 hnr hin hl
+    have ap := lzma2CallR_ap l1Lclppb r hgood hi.2.1
+    rw [← hfr2.1] at hJ ⊢
+    refine ⟨sp.2.2.1.1, ap, ?_, hJ⟩
+    intro hw
+    have hw0 : r.s.dp.hasWrapped = false := by rw [← sp.2.2.2.2.1]; exact hw
+    exact sp.2.2.2.2.2 hw0 (hi.2.2.1 hw0)
+  idle := fun r s hfr hi hin hl hlimsz hsz hnr hok hst hpos N =>
+    (lzma2Call_simF r s hfr ⟨hi.1, hi.2.1, hi.2.2.1, hi.2.2.2, hin, hl, hnr⟩).1 hst hok hlimsz hsz hpos N
+
+theorem i2_init (dictSize : Nat) (preset : List UInt8) (b : ByteArray) : I2 (Lzma2.initLzma2 dictSize preset b) := by
+  refine ⟨⟨rfl, fun h => by cases h⟩, ⟨⟨?_, Nat.zero_le _, Nat.zero_le _⟩, Nat.zero_le _, Nat.zero_le _⟩, ?_, fun _ => rfl⟩
+  · show allocSize dictSize % 16 = 0
+    unfold allocSize roundDictSize
+    simp only [LZ_DICT_REPEAT_MAX]
+    omega
+  · intro _
+    show min preset.length (roundDictSize dictSize) + LZ_DICT_INIT_POS = LZ_DICT_INIT_POS + min preset.length (roundDictSize dictSize)
+    exact Nat.add_comm _ _
+
+end XzVerif.LzmaR.OneShot
+
+namespace XzVerif.LzmaR
+open XzVerif.RangeDec XzVerif.LzDict XzVerif.Lzma XzVerif.Lzma2 XzVerif.LzmaR.OneShot
+
+/-- **LZMA2, unrestricted** (any output allowance, dictionary wraps included): the resumable model given the complete input in
+    one call is the one-shot model. -/
+theorem callR_eq_oneshot_lzma2 (dictSize : Nat) (preset input : List UInt8) (outCap : Nat) :
+    let x := callR .lzma2 (toBuf input) outCap (initLzma2R dictSize preset)
+    let y := (Coder.initLzma2 dictSize preset (toBuf input)).code outCap
+    x.1 = y.1 ∧ x.2.output = y.2.output ∧ x.2.s.inPos = y.2.consumed := by
+  intro x y
+  have hnp := (Coder.code_no_prog_error _ outCap (Coder.ok2_initLzma2 dictSize preset (toBuf input))).1
+  have ey : y = _ := Coder.code_lzma2 (Lzma2.initLzma2 dictSize preset (toBuf input)) outCap
+  have ey' : (Coder.initLzma2 dictSize preset (toBuf input)).code outCap = _ :=
+    Coder.code_lzma2 (Lzma2.initLzma2 dictSize preset (toBuf input)) outCap
+  rw [ey'] at hnp
+  have h := top_simF lzma2Call_sim hdead_lzma2 (fun s hi hl => lzma2Call_spec s hi hl) codeInv_lzma2
+    (Lzma2.initLzma2 dictSize preset (toBuf input)) outCap (by simp [Lzma2.initLzma2])
+    (gw_init _ dictSize preset.length rfl rfl) (i2_init _ _ _) (initLzma2_produced _ _ _) hnp
+  rw [ey]
+  exact h
+
+/-- `lzma2Decode` (the public one-shot API) is computed by the resumable model; any output allowance, e.g. the default `UNLIMITED`. -/
+theorem lzma2Decode_eq_callR (dictSize : Nat) (preset input : List UInt8) (outCap : Nat) :
+    lzma2Decode dictSize input preset outCap =
+      { ret := (callR .lzma2 (toBuf input) outCap (initLzma2R dictSize preset)).1,
+        out := (callR .lzma2 (toBuf input) outCap (initLzma2R dictSize preset)).2.output,
+        consumed := (callR .lzma2 (toBuf input) outCap (initLzma2R dictSize preset)).2.s.inPos } := by
+  have h := callR_eq_oneshot_lzma2 dictSize preset input outCap
+  simp only [] at h
+  rw [h.1, h.2.1, h.2.2]
   rfl
 
 end XzVerif.LzmaR
